@@ -1153,6 +1153,41 @@ func runGROWLOOP(c *Ctx) {
 		for _, cs := range c.P.Callers[fn] {
 			caller := cs.Parent()
 			what := fmt.Sprintf("%s calls %s", ir.FuncName(caller), fn.Name())
+			// the guard on the height: every level above 0 may be removed, none may be required beyond that
+			for _, f := range ir.FactsAt(cs.Block()) {
+				bin, ok := f.Cond.(*ssa.BinOp)
+				if !ok || !mastFieldLoad(bin.X, "height") {
+					continue
+				}
+				k, isK := ir.ConstInt(bin.Y)
+				if !isK {
+					continue
+				}
+				op := bin.Op
+				if !f.Truth {
+					switch op {
+					case token.GTR:
+						op = token.LEQ
+					case token.GEQ:
+						op = token.LSS
+					case token.LSS:
+						op = token.GEQ
+					case token.LEQ:
+						op = token.GTR
+					case token.EQL:
+						op = token.NEQ
+					case token.NEQ:
+						op = token.EQL
+					}
+				}
+				okGuard := (op == token.GTR && k == 0) || (op == token.NEQ && k == 0) || (op == token.GEQ && k == 1)
+				if d < 0 && !okGuard {
+					c.Violation(caller, P.InstrPos(cs), "level removal guarded by height "+op.String()+fmt.Sprint(k),
+						"a tree may shrink whenever its height is above 0; a stricter guard leaves a tree (down to the empty one) with a height its size no longer justifies, so equal contents persist to different roots")
+				} else if d < 0 {
+					c.OK(P.InstrPos(cs), what+" under height > 0", "the only height guard is 'above level 0'", false)
+				}
+			}
 			if inCycle(cs.Block()) {
 				c.OK(P.InstrPos(cs), what, "inside a loop: repeated until the height rule is satisfied", false)
 			} else {
@@ -1491,4 +1526,100 @@ func allocatesDecodeTarget(call *ssa.Call, depth int) bool {
 		}
 	}
 	return false
+}
+
+// ---- GROWCHECK (added after C04 round 2) -------------------------------------------------------------------
+
+func init() {
+	Register(&Rule{ID: "GROWCHECK", Props: []string{"C04"}, Min: 1,
+		Doc: "the node Insert examines to decide whether the tree must grow is the root it has just installed: the receiver of the growth test is element 0 of the very path slice handed to the root-installing call (or a load of the root) and is read after that call.",
+		Run: runGROWCHECK})
+}
+
+func runGROWCHECK(c *Ctx) {
+	P := c.P
+	ins := c.MustFunc("(*Mast).Insert")
+	if ins == nil {
+		return
+	}
+	// root-installing calls: callees that store Mast.root and take a []pathEntry
+	type inst struct {
+		call ssa.CallInstruction
+		path ssa.Value
+	}
+	var installs []inst
+	for _, ci := range CallsOf(ins) {
+		for _, callee := range c.Facts.Callees(ci) {
+			storesRoot := false
+			for _, b := range callee.Blocks {
+				for _, i := range b.Instrs {
+					if _, f, _, ok := mastFieldStore(i); ok && f == "root" {
+						storesRoot = true
+					}
+				}
+			}
+			if !storesRoot {
+				continue
+			}
+			for _, a := range ci.Common().Args {
+				if sl, ok := a.Type().Underlying().(*types.Slice); ok && ir.IsNamed(sl.Elem(), "pathEntry") {
+					installs = append(installs, inst{ci, a})
+				}
+			}
+		}
+	}
+	if len(installs) == 0 {
+		c.AnchorMissing("Insert's call that installs the new root from the search path")
+		return
+	}
+	// growth tests: calls in a loop of Insert on a *mastNode receiver returning (bool, error)
+	n := 0
+	for _, ci := range CallsOf(ins) {
+		call, ok := ci.(*ssa.Call)
+		if !ok || !inCycle(call.Block()) || len(call.Call.Args) == 0 || !isNodePtr(call.Call.Args[0].Type()) {
+			continue
+		}
+		res := call.Call.Signature().Results()
+		if res.Len() != 2 || !ir.IsErrorType(res.At(1).Type()) {
+			continue
+		}
+		if b, ok := res.At(0).Type().Underlying().(*types.Basic); !ok || b.Kind() != types.Bool {
+			continue
+		}
+		n++
+		recv := call.Call.Args[0]
+		// the installing call that dominates this test
+		var install ssa.CallInstruction
+		var pathArg ssa.Value
+		for _, in := range installs {
+			if ir.Before(in.call, call) {
+				install, pathArg = in.call, in.path
+			}
+		}
+		if install == nil {
+			c.Violation(ins, P.InstrPos(call), "growth test not preceded by installing the new root", "the test would look at the tree as it was before this insert")
+			continue
+		}
+		want := "*" + ir.Sym(pathArg) + "[0].node"
+		_, isRoot := rootLoad(recv)
+		pos := P.InstrPos(call)
+		switch {
+		case !ir.InstrReaches(install, call):
+			c.Violation(ins, pos, "growth test before the new root is installed", "the test would look at the tree as it was before this insert")
+		case ir.Sym(recv) == want:
+			if ld, ok := recv.(*ssa.UnOp); ok && ir.InstrReaches(install, ld) {
+				c.OK(pos, "growth test on the installed root", "receiver is "+pathDesc(want)+", read after the root was installed", false)
+			} else {
+				c.Violation(ins, pos, "growth test on a node read before the root was installed", "the path's first node is replaced by a copy when the root is installed; the earlier value does not contain the new key")
+			}
+		case isRoot:
+			c.OK(pos, "growth test on the installed root", "receiver is a load of Mast.root", false)
+		default:
+			c.Violation(ins, pos, "growth test on a node that is not the new root",
+				"whether the tree must grow depends on the layers of the keys now in the root, including the key just inserted; a node obtained before the insert (the old, shared root) lacks it, so the first insert after a persist or reload can leave the tree one level too low")
+		}
+	}
+	if n == 0 {
+		c.Undecided(ins, P.Pos(ins.Pos()), "no growth test found", "Insert has no looped (bool, error) test on a node")
+	}
 }
